@@ -35,6 +35,25 @@ func genC09(g *Gen) {
 	p.Sched.Fair = true
 	lat := g.R.Pick([]string{"5", "20", "40"})
 	L, _ := strconv.Atoi(lat)
+	if p.Variant == "slowreader" {
+		// an open-loop client that does not read for a while: its socket fills, replies pile up in the proxy's outbound buffer and
+		// behind it in the request queue; once it reads again everything that is complete must still arrive
+		p.Kernel.ClientSndCap = []int{512, 4096, 16384}[g.R.Intn(3)]
+		cp := ClientPlan{Addr: clientAddr(0), Mode: "open", GapMs: g.R.Range(1, 2), CloseAfterSent: -1, CloseAfterReplies: -1, ReadAfterMs: g.R.Range(150, 600)}
+		n := g.R.Range(120, 400)
+		for ri := 0; ri < n; ri++ {
+			tok := Tok(0, ri)
+			sfx := fmt.Sprintf("~D%s~S5~L%d", lat, g.R.Range(200, 3000))
+			if g.R.Pct(15) {
+				cp.Reqs = append(cp.Reqs, g.Local(tok, "ping", RPong))
+			} else {
+				cp.Reqs = append(cp.Reqs, g.Single(tok, "get", Key(tok, 0, -1, sfx)))
+			}
+		}
+		p.Clients = append(p.Clients, cp)
+		p.Notes = append(p.Notes, fmt.Sprintf("slow reader: silent for %d ms, send buffer %d B, %d requests", cp.ReadAfterMs, p.Kernel.ClientSndCap, n))
+		return
+	}
 	if p.Variant == "burst" {
 		// one client pipelines a very deep burst without reading first; a few requests (always including the oldest) are
 		// answered late, so that thousands of completed replies pile up behind an incomplete head and must all be flushed
@@ -84,11 +103,16 @@ func genC09(g *Gen) {
 		n := g.R.Range(15, 60)
 		for ri := 0; ri < n; ri++ {
 			tok := Tok(ci, ri)
+			sfx := "~D" + lat
+			if p.Variant == "trickle" && g.R.Pct(30) {
+				// this reply trickles: a few bytes arrive together with the end of the previous reply, the rest much later
+				sfx += "~P" + g.R.Pick([]string{"40", "120", "400"})
+			}
 			if g.R.Pct(15) {
-				keys := []string{Key(tok, 0, g.R.Intn(16384), "~D"+lat), Key(tok, 1, g.R.Intn(16384), "~D"+lat)}
+				keys := []string{Key(tok, 0, g.R.Intn(16384), sfx), Key(tok, 1, g.R.Intn(16384), "~D"+lat)}
 				cp.Reqs = append(cp.Reqs, g.Split(tok, "mget", keys, nil))
 			} else {
-				cp.Reqs = append(cp.Reqs, g.Single(tok, g.R.Pick([]string{"get", "incr", "llen"}), Key(tok, 0, -1, "~D"+lat)))
+				cp.Reqs = append(cp.Reqs, g.Single(tok, g.R.Pick([]string{"get", "incr", "llen"}), Key(tok, 0, -1, sfx)))
 			}
 		}
 		p.Clients = append(p.Clients, cp)
@@ -137,6 +161,9 @@ func runC09(d *Driver, res *Result) {
 					c.Idx, i, doneRound, i, len(c.Replies), len(c.Plan.Reqs))
 				break
 			}
+			if c.Plan.ReadAfterMs > 0 {
+				continue // the client itself delays delivery: only "never delivered" is judged in this variant
+			}
 			lag := c.ReplyRound[i] - doneRound
 			lagMs := (c.ReplyAt[i] - doneAt).Milliseconds()
 			if lag > maxLag {
@@ -173,6 +200,7 @@ func runC09(d *Driver, res *Result) {
 			d.Counters["c09_burst_over_1024_behind_head"] = 1
 		}
 	}
+	d.Counters["c09_blocked_client_writes"] = d.K.Stats.EAGAINWrite
 	d.StdReplyCheck("C09", Relax{AllowMissing: true})
 	res.Nontrivial = outstandingWhenDone > 0
 	res.Extra = map[string]string{"max_lag_rounds": fmt.Sprint(maxLag), "max_lag_ms": fmt.Sprint(maxLagMs)}
@@ -237,6 +265,40 @@ func genC16(g *Gen) {
 		p.Clients = append(p.Clients, cp)
 		return
 	}
+	if p.Variant == "hung" {
+		// a whole node stops (SIGSTOP, swap storm): it keeps its connections but neither reads nor answers. With a small send buffer
+		// the proxy's writes to it block (EAGAIN, fragments parked in the outbound buffer); every request for its slots must still
+		// get its error in position and everything else must be served.
+		p.Proxy.DisableSlave = true
+		p.Topos[0] = g.StdTopology(g.R.Range(3, 4), 0, false)
+		p.Kernel.BackendSndCap = []int{512, 4096, 1 << 20}[g.R.Intn(3)]
+		hung := &p.Topos[0].Nodes[g.R.Intn(len(p.Topos[0].Nodes))]
+		p.Events = append(p.Events, Event{Kind: "hang-node", When: When{Step: 1}, Node: hung.Addr})
+		p.Sched.SettleS = T/1000 + 4
+		nc := g.R.Range(1, 3)
+		for ci := 0; ci < nc; ci++ {
+			cp := ClientPlan{Addr: clientAddr(ci), Mode: g.R.Pick([]string{"pipeline", "closed", "pipeline"}), CloseAfterSent: -1, CloseAfterReplies: -1, StartStep: 3 + g.R.Intn(10)}
+			for ri, n := 0, g.R.Range(2, 24); ri < n; ri++ {
+				tok := Tok(ci, ri)
+				slot := g.R.Intn(16384)
+				if g.R.Pct(50) {
+					r := hung.Slots[0]
+					slot = g.R.Range(r[0], r[1])
+				}
+				switch g.R.Intn(4) {
+				case 0:
+					cp.Reqs = append(cp.Reqs, g.Single(tok, "get", Key(tok, 0, slot, "")))
+				case 1:
+					keys := []string{Key(tok, 0, slot, ""), Key(tok, 1, g.R.Intn(16384), "")}
+					cp.Reqs = append(cp.Reqs, g.Split(tok, "mget", keys, nil))
+				default:
+					cp.Reqs = append(cp.Reqs, g.Single(tok, "set", Key(tok, 0, slot, ""), strings.Repeat("x", g.R.Range(200, 900))))
+				}
+			}
+			p.Clients = append(p.Clients, cp)
+		}
+		return
+	}
 	nc := g.R.Range(1, 2)
 	for ci := 0; ci < nc; ci++ {
 		cp := ClientPlan{Addr: clientAddr(ci), Mode: g.R.Pick([]string{"pipeline", "closed", "pipeline"}), CloseAfterSent: -1, CloseAfterReplies: -1, StartStep: g.R.Intn(10)}
@@ -285,6 +347,20 @@ func checkC16(d *Driver, res *Result) {
 		if r.Kind == "data" && r.HoldFor != 0 {
 			stalled++
 		}
+	}
+	if d.P.Variant == "hung" {
+		for _, c := range d.Clients {
+			for i := range c.Plan.Reqs {
+				for _, k := range c.Plan.Reqs[i].Keys {
+					if d.ownerHung(k) {
+						stalled++
+						break
+					}
+				}
+			}
+		}
+		d.Counters["c16_requests_for_hung_node"] = stalled
+		d.Counters["c16_blocked_backend_writes"] = d.K.Stats.EAGAINWrite
 	}
 	res.Nontrivial = stalled > 0
 	d.Counters["c16_stalled_fragments"] = stalled
